@@ -88,8 +88,15 @@ def item(it):
     raise ValueError(k)
 
 
+def in_module(it):
+    text = item(it)
+    if it.get("module"):
+        text = f"pub mod {it['module']} {{\n" + "".join("    " + l + "\n" for l in text.splitlines()) + "}\n"
+    return text
+
+
 def program(items, prelude=""):
-    return prelude + "\n".join(item(i) for i in items)
+    return prelude + "\n".join(in_module(i) for i in items)
 
 
 def tagged(tag="type", content="content", extra=""):
